@@ -133,23 +133,33 @@ func (s *store) Consume(ctx context.Context, consumerName string, f func(uint64,
 		fd.Close()
 	}()
 
-	offset := Encoding.Uint64(stateOffset)
+	// The state file holds the offset of the next message to hand over, so that a restart
+	// resumes after the last message that was processed completely.
+	next := Encoding.Uint64(stateOffset)
+	from := next
+	if from > 0 {
+		// position the cursor on a record that exists (the end of the log is not seekable) and
+		// skip it below
+		from--
+	}
 	consumer := stream.NewConsumer(
 		stream.WithEOFBehaviour(stream.EOFBehaviourPoll),
-		stream.FromOffset(int64(offset)))
+		stream.FromOffset(int64(from)))
 	cursor := s.log.Reader()
-	s.maybeTruncate(offset)
+	s.maybeTruncate(from)
 	return consumer.Consume(ctx, cursor, func(c context.Context, b stream.Batch) error {
 		for idx, record := range b.Records {
 			newOffset := b.FirstOffset + uint64(idx)
-
+			if newOffset < next {
+				continue
+			}
 			err := f(newOffset, mustDecode(record))
 			if err != nil {
 				return err
 			}
-			offset = newOffset
-			Encoding.PutUint64(stateOffset, offset)
-			s.maybeTruncate(offset)
+			next = newOffset + 1
+			Encoding.PutUint64(stateOffset, next)
+			s.maybeTruncate(newOffset)
 		}
 
 		return nil
